@@ -258,6 +258,29 @@ def mid_tick_reconfig(ctx, rng):
     ctx.count("mid_tick_reconfigurations", n)
 
 
+def arrival_race(ctx, rng):
+    """a burst arriving on the socket thread while the clock thread ticks the same transceiver (two real threads, preemption at the
+    lock operations and at every access to the queue): whatever the schedule, the burst is either sent in its frame, still queued or
+    reported - never lost, so the tuned running peer gets its copy (schedule driver shared with C03)"""
+    from .. import sched_driver as SD
+    n = 0
+    for q, op in (([(1, 10)], ("arrive", 5, 10)), ([(1, 10), (2, 11)], ("arrive", 6, 11)), ([], ("arrive", 7, 10)), ([(1, 9), (2, 10)], ("arrive", 8, 12))):
+        for _ in range(12 if ctx.tier == "quick" else 400):
+            sched = [rng.below(2) for _ in range(14)]
+            ctx.in_flight = ("arrival-race", op, q, sched)
+            o, trace, states = SD.run_one(10, True, False, op, q, sched)
+            n += 1
+            ne = o[3]; emitted = o[4:4 + ne]; ns = o[4 + ne]; stale = o[5 + ne:5 + ne + ns]; nq = o[5 + ne + ns]; queue = o[6 + ne + ns:6 + ne + ns + nq]
+            cleared, rejected = o[-2], o[-1]
+            accepted = len(q) + (0 if rejected else 1)
+            if o[0] or len(emitted) + len(stale) + len(queue) + cleared != accepted or len(set(emitted + stale + queue)) != len(emitted + stale + queue):
+                ctx.oracle_fail("a burst accepted while the clock thread was ticking its transceiver is lost (or duplicated): the tuned running peer never gets its copy",
+                                dict(tick=10, queue=q, arrival=op, schedule=sched, trace=trace, emitted=emitted, stale=stale, still_queued=queue), key="c02-arrival-race")
+                return
+    ctx.count("arrival_race_schedules", n)
+    ctx.evaluations += n
+
+
 def run(ctx):
     gen(ctx)
     ctx.prove()
@@ -271,6 +294,7 @@ def run(ctx):
         oracle(ctx, s, r)
         W.refused_leaves_no_trace(ctx, s, r, "c02")
     mid_tick_reconfig(ctx, rng)
+    arrival_race(ctx, rng)
     ctx.sample(dict(trx_defs=scripts[0][0], ops=[SC.describe(o) for o in scripts[0][1][:12]]))
     ctx.count("operations", sum(len(s[1]) for s in scripts))
     ctx.count("transceivers", sum(2 + len(s[0]) for s in scripts))
